@@ -68,6 +68,10 @@ type EndpointShards struct {
 	// Due to the larger time, it is still possible that connection errors will occur while
 	// CDS is updated.
 	ServiceAccounts sets.String
+
+	// unlinked is set (with the lock held) when these shards are removed from the EndpointIndex.
+	// Nothing reads them afterwards, so a writer that looked them up earlier must not use them.
+	unlinked bool
 }
 
 // Keys gives a sorted list of keys for EndpointShards.Shards.
@@ -271,6 +275,7 @@ func (e *EndpointIndex) deleteServiceInner(shard ShardKey, serviceName, namespac
 		if len(epShards.Shards) == 0 {
 			verifGate("delete:before-unlink")
 			delete(e.shardsBySvc[serviceName], namespace)
+			epShards.unlinked = true
 		}
 		if len(e.shardsBySvc[serviceName]) == 0 {
 			delete(e.shardsBySvc, serviceName)
@@ -330,6 +335,18 @@ func (e *EndpointIndex) UpdateServiceEndpoints(
 	}
 
 	ep.Lock()
+	for ep.unlinked {
+		// A concurrent DeleteServiceShard/DeleteShard/PruneShard removed these shards from the index after we
+		// looked them up and before we got the lock. Writing to them would silently drop this update, since
+		// nothing reads them anymore: look the shards up (or create them) again.
+		ep.Unlock()
+		ep, created = e.GetOrCreateEndpointShard(hostname, namespace)
+		verifGate("update:after-lookup")
+		if created {
+			pushType = FullPush
+		}
+		ep.Lock()
+	}
 	defer ep.Unlock()
 	oldIstioEndpoints := ep.Shards[shard]
 	newIstioEndpoints, needPush := endpointUpdateRequiresPush(oldIstioEndpoints, istioEndpoints)
